@@ -328,7 +328,9 @@ def src(n, kn=DEFAULT, ind=0, prec=0):
         # the maximum is a literal that the compiler truncates to a whole number of samples (`max_time as u64`, for the state
         # cell AND for the ring the back ends open): written with a fractional part at 3 sites in 7 (seeded change C03d: the
         # instruction rounded up while the layout truncated, so `delay(2.5, x, t)` overran its cell); the model gets N
-        frac = (".0", ".5", ".0", ".25", ".0", ".75", ".0")[a[3] % 7] if isinstance(a[3], int) else ".0"
+        # (keyed by N, not by the site: a macro expansion re-numbers sites; off for the staging checks, whose tree comparison
+        # reads literals as text)
+        frac = (".0", ".5", ".0", ".25", ".0", ".75", ".0")[int(a[0]) % 7] if FRAC_DELAY and str(a[0]).isdigit() else ".0"
         return f"delay({a[0]}{frac}, {src(a[1], kn, ind)}, {src(a[2], kn, ind)})"
     if k == "now":
         return "now"
@@ -602,7 +604,7 @@ class Gen:
             # known finding F20 (WASM: an `if` arm whose value comes out of a tuple built in that arm yields 0 when the
             # other arm is taken): no tuples are created inside `if` arms and `if` is float-typed in this profile
             opts = [("let", 6), ("letif", 2 if d > 0 else 0), ("lettup", 2 if self.p.get("tuples", True) else 0)]
-            if self.p.get("lambdas", True) and d > 0 and ctx.get("lam_depth", 0) < self.p.get("lam_depth", 1):
+            if self.p.get("lambdas", True) and d > 0 and ctx.get("lam_depth", 1 if ctx.get("in_lambda") else 0) < self.p.get("lam_depth", 1):
                 opts.append(("letlam", 2 if not ctx.get("in_lambda") else 5))
             mut = [v for v in ctx["vars"] if v[1] == F and v[2]]
             if self.p.get("assign", True) and mut:
@@ -695,7 +697,7 @@ class Gen:
                 # (former finding C03-K11 — assigning a FIELD of a captured record inside a closure panicked the compiler —
                 # is repaired: captured records are assignable under `closure_assign` like captured numbers)
                 lctx = dict(ctx, vars=cap + [(q, F, False) for q in ps], allow_state=False, self_type=None, in_lambda=True,
-                            lam_depth=ctx.get("lam_depth", 0) + 1)
+                            lam_depth=ctx.get("lam_depth", 1 if ctx.get("in_lambda") else 0) + 1)
                 body = self.block(F, d - 1, lctx)
                 fname = self.fresh("f")
                 stmts.append(("let", fname, Node("lam", ps, body)))
@@ -883,6 +885,9 @@ class Gen:
         fn.rec = True
         fn.defaults = {}
         return fn
+
+
+FRAC_DELAY = True      # write delay maxima with a fractional part (see `src`, kind "delay")
 
 
 PROFILES = {
